@@ -2,7 +2,7 @@
 import os
 
 from . import core
-from .rules import stdio, cert, mark, exact, optstore, inval, idx, atomic, own, tokens, idxclass, copy, pair, structfree, buf, div, counter, sentinel, appendinit, verdict, basismap, zerotol, escape, lenclass, djsym, ndet, useb4check, norms, opencheck, shell, esolver, errlost, rescan, certdep, neverset, fmt, defaults, scratch, fullscan, slotleak, floatidx, sensemap, trunc, vtypezero, allockind, intdiv, strscan, localfield, rawidx, argcap, staleptr, condalloc, lpstate, vstattype
+from .rules import stdio, cert, mark, exact, optstore, inval, idx, atomic, own, tokens, idxclass, copy, pair, structfree, buf, div, counter, sentinel, appendinit, verdict, basismap, zerotol, escape, lenclass, djsym, ndet, useb4check, norms, opencheck, shell, esolver, errlost, rescan, certdep, neverset, fmt, defaults, scratch, fullscan, slotleak, floatidx, sensemap, trunc, vtypezero, allockind, intdiv, strscan, localfield, rawidx, argcap, staleptr, condalloc, lpstate, vstattype, alphabet
 from .effects import Effects
 
 FIX = os.path.join(os.path.dirname(os.path.abspath(__file__)), "fixtures")
@@ -169,6 +169,7 @@ def c01_rules():
 def c02_rules():
     return [
         lambda prog, tier: argcap.run(prog, floor=40),
+        lambda prog, tier: lpstate.run_internal(prog),
         lambda prog, tier: cert.run(prog, want=("INF",)),
         lambda prog, tier: mark.run(prog, which=("QSexact_infeasible_test",)),
         lambda prog, tier: optstore.run(prog),
@@ -279,6 +280,7 @@ PROPS = {
     "C07": {
         "rules": [lambda prog, tier: idx.run(prog), lambda prog, tier: atomic.run(prog), lambda prog, tier: shell.run(prog, shared_eff(prog)),
                   lambda prog, tier: lpstate.run(prog),
+                  lambda prog, tier: alphabet.run(prog, shared_eff(prog)),
                   lambda prog, tier: errlost.run(prog, scope_funcs=set(prog.reachable(sorted(f.key for f, _ in inval.api_functions(prog)))), floor=150)],
         "technique": "interprocedural taint of API index/selector arguments + path-sensitive must-analysis of range-guard facts "
                      "(right dimension, right strictness) on clang::CFG with callee preconditions propagated to the API boundary and "
@@ -536,7 +538,7 @@ PROPS = {
                   lambda prog, tier: argcap.run(prog, floor=40),
                   lambda prog, tier: staleptr.run(prog, shared_eff(prog)),
                   lambda prog, tier: condalloc.run(prog),
-                  lambda prog, tier: lpstate.run(prog),
+                  lambda prog, tier: lpstate.run(prog), lambda prog, tier: lpstate.run_internal(prog),
                   lambda prog, tier: neverset.run(prog),
                   lambda prog, tier: fmt.run(prog),
                   lambda prog, tier: floatidx.run(prog),
@@ -653,8 +655,10 @@ _ADD = {
                           "from the variable type, STAT_ZERO is reachable for VFREE only (type-value enumeration through the if forms)."},
     "C02": {"explanation": " (R-ARGCAP) every local vector handed to the tests (and to every other function) was allocated with a dimension "
                            "that covers the index spaces the callee subscripts it with.",
-            "technique": "; interprocedural subscript-space requirement of pointer parameters against reaching allocation classes of local vectors",
-            "level_text": " R-CERTDEP decides presence, coverage over all internal columns, failing outcomes (<= 0) and data dependences of the "
+            "technique": "; interprocedural subscript-space requirement of pointer parameters against reaching allocation classes of local vectors; "
+                         "factorok typestate of the library's own calls of factorok-guarded functions",
+            "level_text": " (R-FOKCALL) the driver never calls a factorok-guarded public function right after a call that reset factorok "
+                          "(the exact re-test of an infeasible LP would be rejected by the library's own guard). R-CERTDEP decides presence, coverage over all internal columns, failing outcomes (<= 0) and data dependences of the "
                           "Farkas-value and infinite-bound gates."},
     "C05": {"technique": "; per-iteration must-write analysis for the co-update of a row's sense with its logical column",
             "explanation": " (R-COUPD(sense)) every path that stores a new row sense also writes the logical column's lower bound, upper bound and "
@@ -664,11 +668,14 @@ _ADD = {
                            "cache only under tests of p->basis, p->cache and p->factorok; (R-VSTATTYPE) the simplex driver reads the non-basic statuses "
                            "only after a pass that sets each of them from the variable's type (a bound made infinite since the last solve, or a "
                            "caller's status letter that does not fit the bounds, cannot enter the computation)."},
-    "C07": {"technique": "; computed simplex-state fields of lpinfo + unguarded-read summaries + dominance of the API hand-over by the factorok test",
+    "C07": {"technique": "; computed simplex-state fields of lpinfo + unguarded-read summaries + dominance of the API hand-over by the factorok test; "
+                         "alphabet discovery + dominating-validator check for caller-supplied selector letters",
             "explanation": " (R-LPSTATE) the index-taking calls that work on the simplex data of the problem (tableau rows, pivot-in lists, basis "
                            "order) are refused in every lifecycle state in which p->lp does not hold the factored basis of the current problem "
                            "(never solved, edited, basis replaced, solved by QSexact_solver on copies) instead of reading NULL / stale arrays. "
-                           "(R-IDX) also covers scratch arrays sized by a dimension and list[computed position] elements."},
+                           "(R-IDX) also covers scratch arrays sized by a dimension and list[computed position] elements. (R-ALPHABET) a row sense or basis "
+                           "status letter supplied by the caller is stored only after a rejecting test against the field's alphabet (discovered from "
+                           "the constants the program itself stores)."},
     "C08": {"technique": "; all-paths constant propagation through the '/' case of the exact literal scanner; flag-state dataflow for stores into the "
                          "raw LP's bounds; machine-word sink census; exit-condition analysis of the emission loops",
             "explanation": " (R-RESCAN) the '/' case of the exact literal scanner restores every scanner state variable; (R-EXPLICITBND) the raw LP's "
